@@ -18,6 +18,7 @@ package val
 
 import (
 	"context"
+	"time"
 
 	"github.com/zeebo/xxh3"
 
@@ -144,7 +145,18 @@ var verif_ghost struct {
 	aHash hash.Hash // address returned by the most recent ValueStore.WriteBytes
 	kLo   uint64    // low / high word of the most recent xxh3.Hash128
 	kHi   uint64
+	// field comparisons made by the tuple comparator, in order
+	cN       int  // how many fields have been compared so far
+	cAllZero bool // every one of them compared equal
+	cLast    int  // the most recent result
 }
+
+// verif_teq / verif_tlt: the order of instants (time.Time.Equal / Before), uninterpreted.
+func verif_teq(a, b time.Time) bool { return a.Equal(b) }
+func verif_tlt(a, b time.Time) bool { return a.Before(b) }
+
+func verif_x_time_Equal(t, u time.Time) (b bool)  { return t.Equal(u) }
+func verif_x_time_Before(t, u time.Time) (b bool) { return t.Before(u) }
 
 func verif_x_vs_WriteBytes(vs ValueStore, ctx context.Context, val []byte) (h hash.Hash, err error) {
 	return vs.WriteBytes(ctx, val)
